@@ -33,6 +33,38 @@ def sort_of(ct):
     return z3.IntSort()
 
 
+def strip_unused_recfuns(txt):
+    """z3 prints every recursive definition of the context; drop those the problem does not use
+    (their mere presence changes the solver's strategy)"""
+    out = txt
+    pos = 0
+    while True:
+        a = out.find('(define-funs-rec', pos)
+        if a < 0:
+            break
+        # find matching close paren
+        depth, i = 0, a
+        while i < len(out):
+            if out[i] == '(':
+                depth += 1
+            elif out[i] == ')':
+                depth -= 1
+                if depth == 0:
+                    break
+            i += 1
+        block = out[a:i + 1]
+        import re
+        m = re.match(r'\(define-funs-rec \( \( (\S+)', block)
+        name = m.group(1) if m else None
+        rest = out[:a] + out[i + 1:]
+        if name and name not in rest:
+            out = rest
+            pos = a
+        else:
+            pos = i + 1
+    return out
+
+
 class Obligation:
     def __init__(self, name, tags, pc, goal, kind, line=None, note=''):
         self.name, self.tags, self.pc, self.goal, self.kind = name, set(tags), list(pc), goal, kind
@@ -48,7 +80,8 @@ class Obligation:
         for a in self.pc:
             s.add(a)
         s.add(z3.Not(self.goal))
-        return s.to_smt2()
+        txt = s.to_smt2()
+        return strip_unused_recfuns(txt)
 
 
 class State:
@@ -64,6 +97,7 @@ class State:
         self.dims = {}       # region -> [z3 Int]
         self.pc = []
         self.dead = False
+        self.ver = {}        # region -> havoc generation (arrays materialised later get a fresh name)
 
     def copy(self):
         s = State()
@@ -75,6 +109,7 @@ class State:
         s.length = dict(self.length)
         s.dims = dict(self.dims)
         s.pc = list(self.pc)
+        s.ver = dict(self.ver)
         return s
 
     @classmethod
@@ -89,7 +124,11 @@ class State:
     def array(self, region, leaf, ct):
         key = (region, leaf)
         if key not in self.arr:
-            self.arr[key] = z3.Const(f'{region}${leaf}' if leaf else region, z3.ArraySort(z3.IntSort(), sort_of(ct)))
+            nm = f'{region}${leaf}' if leaf else region
+            v = self.ver.get(region, 0)
+            if v:
+                nm += f'@{v}'
+            self.arr[key] = z3.Const(nm, z3.ArraySort(z3.IntSort(), sort_of(ct)))
             self.leafct[key] = ct
         return self.arr[key]
 
@@ -100,9 +139,11 @@ class State:
         return self.length[region]
 
     def havoc_region(self, region):
+        State._fresh[0] += 1
+        self.ver[region] = State._fresh[0]
         for key in list(self.arr):
             if key[0] == region:
-                self.arr[key] = State.fresh(f'{region}${key[1]}', self.arr[key].sort())
+                del self.arr[key]
 
 
 def range_fact(t, ct):
@@ -176,6 +217,10 @@ def merge_states(c, s1, s2):
             s.length[k] = a if a is not None else b
         elif not a.eq(b):
             s.length[k] = z3.If(c, a, b)
+    for k in set(s1.ver) | set(s2.ver):
+        if s1.ver.get(k, 0) != s2.ver.get(k, 0):
+            # havoced on one side only: materialise both sides' arrays for known leaves, then they merge by ite above
+            s.ver[k] = max(s1.ver.get(k, 0), s2.ver.get(k, 0))
     for k in set(s1.dims) | set(s2.dims):
         s.dims[k] = s1.dims.get(k) or s2.dims.get(k)
     # path conditions
